@@ -3,6 +3,7 @@ package grpcdatasource
 import (
 	"errors"
 	"fmt"
+	"slices"
 	"strconv"
 
 	"github.com/tidwall/gjson"
@@ -267,7 +268,9 @@ func (j *jsonBuilder) marshalResponseJSON(message *RPCMessage, data protoref.Mes
 	validFields := message.Fields
 	if message.IsOneOf() {
 		// For oneOf types, add type-specific fields based on the actual concrete type
-		validFields = append(validFields, message.FragmentFields.SelectFieldsForTypes(message.SelectValidTypes(string(data.Type().Descriptor().Name())))...)
+		// The field slice belongs to the plan, which concurrent Loads share, and may have spare
+		// capacity: clip it so that append copies instead of writing into the plan's array.
+		validFields = append(slices.Clip(validFields), message.FragmentFields.SelectFieldsForTypes(message.SelectValidTypes(string(data.Type().Descriptor().Name())))...)
 	}
 
 	// Process each field in the message
